@@ -121,6 +121,10 @@ class ConcApi(BaseApi):
     def bool(self, name):
         return bool(self._get(name, lambda: self.rng.random() < 0.5))
 
+    def choice(self, name, n):
+        """a concrete value 0 <= k < n in both modes (symbolic mode: one path per value)"""
+        return self.int(name, 0, n - 1)
+
     def enum(self, name, kind, domain=None):
         dom = list(domain if domain is not None else KIND_LABELS[kind])
         v = self._get(name, lambda: self.rng.randrange(len(dom)))
